@@ -261,7 +261,8 @@ ONE_TOKEN = ["appended(self.markup) == 1", "last_stop(self.markup) > old(last_st
 def state_contract(name, wc, post, loops=None, regex_total=None):
     contract(
         f"liquid2.lexer:Lexer.{name}",
-        props=["C17", "C02"],
+        # C15: the line number reported for a message is derived from the start offset of its tag's token
+        props=["C17", "C02", "C15"],
         params={"self": Shared("lexer_self", LEXER(wc=wc, **LISTS))},
         pre=INV[name],
         loops=loops or {},
